@@ -13,7 +13,10 @@ Layers:
     Counted separately in the evidence (`pos-in-user-snippet`).
   * CORRESPONDENCE: outcome class of the extracted Coq model `expand_markup_str` (Ok | ParseErr kind pos |
     Internal | OutOfFuel) == outcome class of the implementation (incl. error kind and position) on every case
-    the model covers (BEM configurations included; not lorem).  Output TEXT equality is recorded as a statistic only.
+    the model covers (BEM and markup.href configurations included; not lorem), and the output TEXT is equal as well.
+  * markup.href (coq/model/MarkupHref.v, insert_href in coq/model/MarkupConvert.v): harness/href_util.py compares the
+    matchers with the compiled regex objects, insert_href with the real one, and the FULL expand() output / callback
+    events on URL / e-mail like wrap texts.
   * BEM addon (coq/model/MarkupBem.v): harness/bem_util.py compares the FULL expand() output of model and
     implementation on exhaustive class-name strings over nested elements, with/without context, custom separators.
   * deep-nesting probe (fresh interpreter, default recursion limit): the two inputs of DESIGN §5 C07.
@@ -602,7 +605,7 @@ def run_markup(ctx, model_ok=True):
                  'C07_expand_safe_any_table (malformed user snippets: position inside the snippet text)'],
         'partial': [],
         'by_construction': ['formatters return plain values (no res, no fuel): proofs/SafeFormat.v'],
-        'not_in_model(implementation oracle only)': ['lorem text generation', 'markup.href rewriting',
+        'not_in_model(implementation oracle only)': ['lorem text generation',
                                                      'user callbacks other than the identity', 'CPython recursion limit (known finding)'],
     }
     # ---- correspondence with the extracted model
@@ -644,13 +647,21 @@ def run_markup(ctx, model_ok=True):
                     ctx.broken.append({'kind': 'correspondence', 'file': 'markup-expand-class', 'input': abbr,
                                        'config': canon_cfg(cfg), 'impl': repr(im)[:300], 'model': repr(mo)[:300]})
         elif mo[0] == 'ok' and mo[1] != im[1]:
+            # the model covers every converter feature (markup.href included): the output text must agree as well
             text_diff += 1
-    ctx.cov['correspondence']['markup_expand_outcome_class'] = {
-        'cases': len(wires), 'disagreements': dis,
-        'output_text_differs(statistic only; not the observable of C07)': text_diff}
+            if text_diff <= 5:
+                cfg = cs.cfgs[ci]
+                ctx.say('DISAGREE markup expand output %r cfg=%s\n  impl  %r\n  model %r' % (abbr, canon_cfg(cfg), str(im)[:300], str(mo)[:300]))
+                ctx.broken.append({'kind': 'correspondence', 'file': 'markup-expand-output', 'input': abbr,
+                                   'config': canon_cfg(cfg), 'impl': repr(im)[:300], 'model': repr(mo)[:300]})
+    ctx.cov['correspondence']['markup_expand_outcome_class_and_output'] = {
+        'cases': len(wires), 'disagreements': dis, 'output_text_disagreements': text_diff}
     # ---- BEM addon: full output, model vs implementation (harness/bem_util.py)
     import bem_util
     bem_util.run_bem(ctx, model)
+    # ---- markup.href: matchers, insert_href and the full output / callback events (harness/href_util.py)
+    import href_util
+    href_util.run_href(ctx, model)
 
 
 def replay_markup(ctx, obj):
